@@ -160,6 +160,8 @@ class Run:
             "wall_s": round(time.time() - self.t0, 2),
             "violations": len(new_keys),
         }
+        if os.environ.get("VERIF_NOEVIDENCE"):  # self-tests against scratch worktrees
+            return
         os.makedirs(os.path.join(VERIF, "evidence"), exist_ok=True)
         path = os.path.join(VERIF, "evidence", f"{self.pid}.json")
         with open(path + ".tmp", "w") as fh:
